@@ -205,8 +205,8 @@ func rulesC02(p *Prog, r *Report) {
 		}
 	}
 	mk := func(fn *ssa.Function) *qf {
-		qz := &quantizer{p: p, elemVar: map[ssa.Value]string{}, inlineAll: true}
-		return qz.funcFormulaWith(fn, 0, nil)
+		qz := &quantizer{p: p, elemVar: map[ssa.Value]string{}, inlineAll: true, seeInts: true}
+		return normQF(qz.funcFormulaWith(fn, 0, nil))
 	}
 	FL, FR, FE := mk(lac), mk(lrc), mk(exc)
 	r.Extra["matcher_formulas"] = map[string]string{"licensesAreCompatible": FL.String(), "licenseRefsAreCompatible": FR.String(), "exceptionsAreCompatible": FE.String()}
